@@ -32,7 +32,7 @@ pub fn property() -> Property {
     add::<SMVReg>(&mut jobs, Disc::Any, &[], &[], 6000, 200_000, 0.03);
     add::<MapOrswot>(&mut jobs, Disc::Causal, &[Class::T1], &[Class::T1, Class::T4], 6000, 200_000, 0.03);
     add::<MapMVReg>(&mut jobs, Disc::Causal, &[Class::T1, Class::T2, Class::T5], &[Class::T1, Class::T2, Class::T2b, Class::T5], 6000, 200_000, 0.03);
-    add::<MapMapMVReg>(&mut jobs, Disc::Causal, &[Class::T1, Class::T2, Class::T5], &[Class::T1, Class::T2, Class::T2b, Class::T5], 4000, 100_000, 0.03);
+    add::<MapMapMVReg>(&mut jobs, Disc::Causal, &[Class::T1, Class::T2, Class::T5], &[Class::T1, Class::T2, Class::T2b, Class::T4, Class::T5], 4000, 100_000, 0.03);
     add::<SList>(&mut jobs, Disc::Causal, &[], &[], 4000, 100_000, 0.03);
     add::<SMerkle>(&mut jobs, Disc::Any, &[], &[], 4000, 100_000, 0.03);
     add::<SGList>(&mut jobs, Disc::Any, &[], &[], 2000, 40_000, 0.03);
